@@ -160,14 +160,17 @@ class RetractionState(CommonMixin):
         else:
             amount = self.extrusionAmount * direction
             eAxis = position.E_AXIS
-            eAxis.current += amount
+            fileE = eAxis.current
+            eAxis.current = fileE + amount
 
             returnCommands.append(
                 # Set logical extruder position
                 "G92 E{e}".format(e=formatNumber(eAxis.nativeToLogical()))
             )
 
-            eAxis.current -= amount
+            # Restore the exact value: subtracting the amount again could leave a rounding residue, and
+            # a later command repeating the file's E value would then look like a tiny extrusion
+            eAxis.current = fileE
 
             if (eAxis.absoluteMode):
                 target = eAxis.nativeToLogical()
